@@ -57,6 +57,11 @@ avx_rule_loadpX (OrcCompiler *compiler, void *user, OrcInstruction *insn)
       orc_x86_emit_mov_memoffset_avx (compiler, 4,
           (int)ORC_STRUCT_OFFSET (OrcExecutor, params[insn->src_args[0]]),
           compiler->exec_reg, REGISTER_RULE, FALSE);
+      if (size == 8) {
+        /* a parameter narrower than the 64-bit operation that uses it is
+         * sign-extended, as the emulator and the C backend do */
+        orc_avx_sse_emit_pmovsxdq (compiler, REGISTER_RULE, REGISTER_RULE);
+      }
       orc_avx_emit_broadcast (compiler, REGISTER_RULE, REGISTER_RULE, size);
     }
   } else if (src->vartype == ORC_VAR_TYPE_CONST) {
